@@ -784,13 +784,13 @@ theorem consecutive_explicit_uses_given_ids (c : Core) (n frames ch b0 : Int) (c
     (all other blocks untouched, invariant kept: the number can be handed out again). -/
 theorem buffer_free_once_and_returns_id (c : Core) (h : Nat) (cm : Completion) (b : BufObj) (i : Nat)
     (bs : List Block) (hb : c.bufs[h]? = some b) (hi : b.bufnum = some (i : Int))
-    (hinv : Inv c.balloc bs) (hr : i < c.balloc.off + c.balloc.size) :
+    (hinv : Inv c.balloc bs) :
     ∃ a' bs', c.stepCore (.bfree h cm) =
         ({ c with balloc := a', bufs := c.bufs.set h ⟨none, none, none⟩ }, .ok,
          [.msg ⟨"/b_free", [ai i, complArg cm i]⟩]) ∧
       Inv a' bs' ∧ (∀ u, u.used = true → (u ∈ bs' ↔ u ∈ bs ∧ u.start ≠ i)) ∧
       (∀ u ∈ a'.blocks, u.start ≠ i) := by
-  obtain ⟨a', bs', e, hi', _, hu⟩ := free_inv hinv (x := i) hr
+  obtain ⟨a', bs', e, hi', _, hu⟩ := free_inv hinv (x := i)
   refine ⟨a', bs', ?_, hi', hu, ?_⟩
   · simp only [Core.stepCore, hb, hi]
     have : ¬ ((i : Int) < 0) := by omega
@@ -953,26 +953,10 @@ theorem allocIn_inv {a a' : CBA} {n : Int} {r : Option Nat} (h : ∃ bs, Inv a b
 theorem free_any_inv {a a' : CBA} {x : Nat} (h : ∃ bs, Inv a bs) (e : a.free (some x) = .ok a') :
     ∃ bs, Inv a' bs := by
   obtain ⟨bs, hi⟩ := h
-  by_cases hx : x < a.off + a.size
-  · obtain ⟨a1, bs1, e1, hi1, _⟩ := free_inv hi hx
-    rw [e] at e1
-    simp only [Except.ok.injEq] at e1; subst e1
-    exact ⟨bs1, hi1⟩
-  · -- beyond the range: `IndexError`, never `.ok`
-    exfalso
-    have hw := hi.toWInv
-    simp only [CBA.free] at e
-    have hlen : a.array.length = a.size := by
-      rw [hw.array]
-      have := C16.render_length hw.tiles hw.offLe
-      omega
-    have hoff := hw.offLe
-    rw [if_neg (by omega)] at e
-    simp only [CBA.cell, C16.cellL] at e
-    rw [if_neg (by omega)] at e
-    have : a.array[x - a.off]? = none := List.getElem?_eq_none (by omega)
-    rw [this] at e
-    simp [bind, Except.bind] at e
+  obtain ⟨a1, bs1, e1, hi1, _⟩ := free_inv hi (x := x)
+  rw [e] at e1
+  simp only [Except.ok.injEq] at e1; subst e1
+  exact ⟨bs1, hi1⟩
 
 theorem send_core (c : Core) (cmd : String) (a : List Arg) : (c.send cmd a).1 = c := rfl
 theorem skip_core (c : Core) : c.skip.1 = c := rfl
